@@ -24,7 +24,7 @@ THEOREMS = ["Mesa.ASet." + t for t in (
     "C03_set_algebra_members_and_order", "C03_comparisons_are_subset_order", "C03_inplace_operators_match_copying",
     "C03_index_count_reversed_agree", "C03_operators_pop_clear_on_the_store", "C03_dead_member_leaves_every_set",
     "C03_select_every_parameter_combination", "C03_constructor_keeps_first_occurrences", "C03_set_writes_members_only",
-    "C03_both_code_paths_build_the_same_set", "C03_set_then_get_reads_the_value",
+    "C03_rebuilding_a_result_is_the_identity", "C03_set_then_get_reads_the_value",
     "C03_getitem_negative_indices_and_slices", "C03_agg_min_max_and_error_arms",
     "C03_map_by_name_is_the_agents_own_attribute",
     "C18_agents_remove_absent_reject_unchanged", "C18_agents_sort_missing_key_reject_unchanged",
